@@ -11,6 +11,7 @@ mod conc;
 mod dur;
 mod gen;
 mod hsc;
+mod incsc;
 mod lshsc;
 mod model;
 mod runner;
@@ -29,6 +30,7 @@ pub enum AnyCase {
     Hsc(hsc::HCase),
     Vec(vecsc::VCase),
     Lsh(lshsc::LCase),
+    Inc(incsc::ICase),
 }
 
 static PANIC_MSG: std::sync::Mutex<Option<String>> = std::sync::Mutex::new(None);
@@ -50,6 +52,7 @@ fn child_run(case: &AnyCase) -> String {
         AnyCase::Hsc(c) => c.seed,
         AnyCase::Vec(c) => c.seed,
         AnyCase::Lsh(c) => c.seed,
+        AnyCase::Inc(c) => c.seed,
     };
     simsys::reset_thread_ordinals();
     simsys::enable(simsys::SimConfig { root: dur::root_dir(), seed });
@@ -77,6 +80,7 @@ fn child_run(case: &AnyCase) -> String {
             AnyCase::Hsc(c) => serde_json::to_string(&hsc::exec(c)).expect("serialise outcome"),
             AnyCase::Vec(c) => serde_json::to_string(&vecsc::exec(c)).expect("serialise outcome"),
             AnyCase::Lsh(c) => serde_json::to_string(&lshsc::exec(c)).expect("serialise outcome"),
+            AnyCase::Inc(c) => serde_json::to_string(&incsc::exec(c)).expect("serialise outcome"),
         })
         .expect("spawn scenario thread");
     let out = match h.join() {
@@ -125,6 +129,7 @@ fn main() {
                     "c13" => AnyCase::Dur(gen::c13_history(run_seed)),
                     "vec" => AnyCase::Vec(gen::vec_case(run_seed)),
                     "lsh" => AnyCase::Lsh(gen::lsh_case(run_seed)),
+                    "c19w" => AnyCase::Inc(gen::c19w_case(run_seed)),
                     "c32" => AnyCase::Hsc(gen::c32_case(run_seed)),
                     "c33" => AnyCase::Hsc(gen::c33_case(run_seed)),
                     "c10" => AnyCase::Hsc(gen::c10_case(run_seed)),
